@@ -213,9 +213,20 @@ fn verify_sublayouts(
     link_dir: &str,
 ) -> Result<HashMap<String, HashMap<KeyId, LinkMetadata>>> {
     let mut steps_link_metadata = HashMap::new();
-    for (step_name, key_link_dict) in chain_link_dict {
+    let mut chain_link_dict = chain_link_dict;
+    // walk the steps in layout order and the keys in sorted order: sub-layout
+    // verification runs inspections, whose effects must not happen in hash order
+    for step in &layout.steps {
+        let step_name = step.name.clone();
+        let key_link_dict = match chain_link_dict.remove(&step_name) {
+            Some(key_link_dict) => key_link_dict,
+            None => continue,
+        };
         let mut link_per_step = HashMap::new();
-        for (keyid, link) in &key_link_dict {
+        let mut key_links: Vec<(&KeyId, &Metablock)> =
+            key_link_dict.iter().collect();
+        key_links.sort_by(|a, b| a.0.cmp(b.0));
+        for (keyid, link) in key_links {
             let link_metadata = match &link.metadata {
                 MetadataWrapper::Layout(_) => {
                     // If it's a layout, go ahead.
